@@ -672,6 +672,9 @@ func ElemExpr(c *spec.Case, e *spec.Elem) string {
 		}
 		return fmt.Sprintf("%s.Value(%s(vrt.Val(%d, %d)))", k, mk(e.Value), e.VID, e.H)
 	case "set":
+		if e.Paren {
+			return "(" + e.Set + ")"
+		}
 		return e.Set
 	case "inline":
 		var parts []string
